@@ -20,7 +20,7 @@ Calling conventions of the engine that are NOT judged: where Trino takes/returns
 UTF-8 bytes are the binary value) and returns either Binary or a lower-case hex string; the comparison in c36.py accepts a hex
 string for a bytes reference value only for entries with binary_as_hex=True (hash functions) and says so in the rule text.
 """
-import base64, binascii, datetime, decimal, hashlib, hmac as _hmac, json, math, re, struct, unicodedata, urllib.parse, zlib
+import base64, binascii, datetime, decimal, hashlib, hmac as _hmac, json, math, re, struct, unicodedata, zlib
 
 
 class DomainError(Exception):
@@ -123,10 +123,8 @@ def _round_half_away(x, d):
     """x (float) rounded to d decimals (d may be negative), ties away from zero, computed on the exact binary value"""
     if isnan(x) or isinf(x):
         return x
-    if d > 400:
-        return x
-    if d < -400:
-        return math.copysign(0.0, x)
+    if abs(d) > 300:
+        raise Unspecified('10^d is not a finite double (Trino itself computes through Math.pow(10, d))')
     if abs(x) * 10.0 ** d >= 2.0 ** 53:
         # every digit that could be rounded away is already gone; Trino's own implementation goes through a 64-bit integer here and
         # does not return the mathematical value, so neither answer can be called "Trino compatible"
@@ -161,10 +159,8 @@ def _trunc_d(x):
 def _trunc_dn(x, n):
     if isnan(x) or isinf(x):
         return x
-    if n > 400:
-        return x
-    if n < -400:
-        return math.copysign(0.0, x)
+    if abs(n) > 300:
+        raise Unspecified('10^n is not a finite double')
     q = decimal.Decimal(1).scaleb(-n)
     r = (decimal.Decimal(x) / q).quantize(decimal.Decimal(1), rounding=decimal.ROUND_DOWN) * q
     return float(r)
@@ -1309,6 +1305,8 @@ for _u in ('day', 'week', 'month', 'quarter', 'year'):
     reg('DATE_DIFF/%s/date' % _u, 'DATE_DIFF', ('date', 'date'), _date_diff(_u), sql="DATE_DIFF('%s', {0}, {1})" % _u)
 for _u in ('millisecond', 'second', 'minute', 'hour', 'day', 'month', 'year'):
     reg('DATE_DIFF/%s/ts' % _u, 'DATE_DIFF', ('ts', 'ts'), _date_diff(_u), sql="DATE_DIFF('%s', {0}, {1})" % _u)
+for _u in ('day', 'month'):
+    reg('DATEDIFF/%s/date' % _u, 'DATEDIFF', ('date', 'date'), _date_diff(_u), sql="DATEDIFF('%s', {0}, {1})" % _u, note='engine alias of DATE_DIFF')
 reg('LAST_DAY_OF_MONTH/date', 'LAST_DAY_OF_MONTH', ('date',), lambda d: d.replace(day=_dim(d.year, d.month)))
 reg('LAST_DAY_OF_MONTH/ts', 'LAST_DAY_OF_MONTH', ('ts',), lambda x: D(x.year, x.month, _dim(x.year, x.month)))
 
